@@ -31,6 +31,7 @@ RULES = {
     "C03-P1": "index maps to/from the boundary and inverse adjacency relations are filled in lock-step",
     "C03-O1": "a face is on the border iff it has fewer than two incident cells; boundary / interior lists are if/else partitions",
     "C03-M1": "border flags of vertices / edges are set from every vertex / every side of every border face",
+    "C03-L6": "every builder of a table sorted around an edge that a cold path can call sorts it like the other builders of that table do",
     "C03-L7": "clear() restores every attribute that __init__ sets and a query modifies",
     "C03-L5": "the cold path of a lazily cached accessor only builds the cache, it never answers by itself",
     "C03-W1": "rotation around an edge: the sort keys handed out by the two walks (and the key of the starting cell) are pairwise distinct",
@@ -41,6 +42,8 @@ RULES = {
     "C03-F1": "faces completed from the cells are de-duplicated against a set that starts with the keys of the listed faces, receives every "
               "appended face and never shrinks",
     "C03-X1": "an index translated to the numbering of the boundary surface is never used to index a container of the volume mesh",
+    "C03-Q1": "a boundary face is written with the vertex order of the volume face; it is written reversed only under a test that involves the "
+              "cell incident to the face",
     "C03-D1": "boundary-connectivity queries translate their argument with m2b_<kind> and every result with b2m_<kind of the result>",
 }
 
@@ -63,6 +66,7 @@ def run(ctx):
     _guard(ctx, "C03", d2_definitional)
     _guard(ctx, "C03", f1_face_completion)
     _guard(ctx, "C03", x1_index_spaces)
+    _guard(ctx, "C03", q1_orientation)
 
 
 def _appends_to(*chain):
@@ -631,7 +635,17 @@ def e1_incidence_tables(ctx):
         ctx.undecided("C03-E1", site, "edge -> faces is not recognised as `each face is appended at every edge of face_to_edges(face)`", f"{len(ins)} insertion(s)")
     else:
         ctx.check(ok, "C03-E1", site, "edge -> faces does not record the face itself at each of its edges", "", note="_adjE2F from face_to_edges of every face")
-    # ---- edge -> cells: union of the cells of every face around the edge
+    # ---- edge -> cells: union of the cells of every face around the edge (possibly built by another builder than edge -> faces)
+    gc = hr.guard_callee(repo, VOL, CONN, "_adjE2C")
+    fn_c = gc[1] if gc else fn
+    if fn_c is not fn:
+        x = q.summarise(repo, VOL, CONN, fn_c, policy=BUILD)
+        site = ctx.site(VOL, fn_c)
+
+    def stored_as_e2c(objid):
+        st = [s_ for s_ in x.effects if s_.kind == "setitem" and q.field(x.canon(s_.base)) == "_adjE2C"
+              and sx.is_special(q._strip_conv(s_.value), "$obj") and q._strip_conv(s_.value).id == objid]
+        return st[0].key if len(st) == 1 else None
     contrib = []
     for e in x.effects:
         if e.kind == "aug" and isinstance(e.op, ast.BitOr):
@@ -645,6 +659,8 @@ def e1_incidence_tables(ctx):
                 contrib.append((e, k))
         if e.kind == "call" and e.method == "update" and len(e.args or []) == 1:
             k = q.lookup_key(x.canon(e.base), "_adjE2C")
+            if k is None and sx.is_special(e.base, "$obj"):
+                k = stored_as_e2c(e.base.id)
             if k is not None:
                 contrib.append((e, k))
     ok = None
@@ -801,14 +817,20 @@ def f1_face_completion(ctx):
               and m.method in ("remove", "discard", "pop", "clear", "difference_update", "intersection_update")]
     adds = [m for m in x.effects if m.kind == "call" and sx.is_special(m.base, "$obj") and m.base.id == sid and m.method == "add" and len(m.args) == 1
             and q.same(m.args[0], key) and hr._ctx_key(m) == hr._ctx_key(e)]
+    # the known keys may be kept in a dictionary (key -> index) instead of a set
+    adds += [m for m in x.effects if m.kind == "setitem" and sx.is_special(m.base, "$obj") and m.base.id == sid and q.same(m.key, key)
+             and hr._ctx_key(m) == hr._ctx_key(e)]
+    seeded = [m for m in x.effects if m.kind == "setitem" and sx.is_special(m.base, "$obj") and m.base.id == sid and len(m.frames) == 1
+              and hr.seq_over(m.frames[0], "faces") and set(q.cond_srcs(m.conds)) <= set(q.cond_srcs(e.conds)) and m.seq < e.seq]
     if shrink:
         ctx.fail("C03-F1", ctx.site(MD, shrink[0].fn, shrink[0].node), f"the set of known face keys is shrunk ({shrink[0].method}) while the faces of the cells are generated",
                  "a face listed in the input or generated by an earlier cell must stay known: once forgotten it is appended a second time by the next cell "
                  "that has it, and the duplicate has no incident cell")
         return
     init = q._strip_conv(x.objs[sid].init)
-    init_ok = isinstance(init, (ast.SetComp, ast.ListComp, ast.GeneratorExp)) and hasattr(init, "_frames") and len(init._frames) == 1 \
+    init_ok = isinstance(init, (ast.SetComp, ast.ListComp, ast.GeneratorExp, ast.DictComp)) and hasattr(init, "_frames") and len(init._frames) == 1 \
         and hr.seq_over(init._frames[0], "faces") and not init._conds
+    init_ok = init_ok or (q._empty_container(init) and bool(seeded))
     if not adds or not init_ok:
         ctx.undecided("C03-F1", site, "the set of known face keys is not `keys of the listed faces, plus every face appended`", "")
     else:
@@ -841,6 +863,76 @@ def x1_index_spaces(ctx):
     if maps is not None:
         vol = au.params(fnb)[0]
         scan(xb, fnb, BORDER, lambda t: isinstance(t, ast.Name) and t.id == vol, lambda b: sx.is_special(b, "$obj") and b.id == maps[0])
+
+
+# ---------------------------------------------------------------------------- Q1
+def _face_order(value):
+    """local positions (in the row of the source face) of the components of a face being written, e.g. (0, 2, 1); None when not recognised"""
+    value = q._strip_conv(value)
+    if not isinstance(value, (ast.Tuple, ast.List)) or len(value.elts) < 3:
+        return None
+    per_elt = []
+    for el in value.elts:
+        hits = [(au.norm(n.value), au.const(n.slice)) for n in ast.walk(el)
+                if isinstance(n, ast.Subscript) and isinstance(au.const(n.slice), int) and not isinstance(au.const(n.slice), bool)]
+        per_elt.append(hits)
+    common = set.intersection(*[{b for b, _ in h} for h in per_elt]) if all(per_elt) else set()
+    for base in sorted(common, key=len):
+        idx = []
+        for h in per_elt:
+            c = [i for b, i in h if b == base]
+            if len(c) != 1:
+                idx = None
+                break
+            idx.append(c[0])
+        if idx and sorted(idx) == list(range(len(idx))):
+            return tuple(idx)
+    return None
+
+
+def _reverses(order):
+    n = len(order)
+    return not any(tuple((k + i) % n for i in range(n)) == tuple(order) for k in range(n))
+
+
+def q1_orientation(ctx):
+    """a border face is copied with the vertex order it has in the volume; it is written reversed only under a test that looks at the
+    cell incident to the face (outwardness is a local property of the face and its cell)"""
+    CELL_WORDS = ("cells", "face_to_cells", "other_face_side", "cell_to_face", "cell_to_cell")
+    fnb, xb, maps = _border_fn(ctx)
+    fnv = ctx.repo.func(VOL, BCONN + ".__init__")
+    xv = q.summarise(ctx.repo, VOL, BCONN, fnv)
+    for modname, fn, x in ((BORDER, fnb, xb), (VOL, fnv, xv)):
+        site = ctx.site(modname, fn)
+        writes = []
+        for e in x.effects:
+            if e.kind == "setitem" and isinstance(e.base, ast.Attribute) and e.base.attr == "faces" and sx.is_special(e.base.value, "$obj"):
+                writes.append((e, x.expand(e.value)))
+            elif e.kind == "call" and e.method == "append" and isinstance(e.base, ast.Attribute) and e.base.attr == "faces" \
+                    and sx.is_special(e.base.value, "$obj") and len(e.args) == 1:
+                writes.append((e, x.expand(e.args[0])))
+        bad = None
+        n_read = 0
+        for e, v0, lconds, v in [(e, v, lc_, leaf) for e, v in writes for lc_, leaf in sx.leaves(v)]:
+            order = _face_order(v)
+            if order is None:
+                continue
+            n_read += 1
+            if not _reverses(order):
+                continue
+            tests = [x.expand(t) for t, _ in list(e.conds) + list(lconds)]
+            about_cell = any(isinstance(n, ast.Attribute) and n.attr in CELL_WORDS for t in tests for n in ast.walk(t))
+            if not about_cell and bad is None:
+                bad = (e, order, bool(tests))
+        if bad is not None:
+            e, order, cond = bad
+            ctx.fail("C03-Q1", ctx.site(modname, e.fn, e.node),
+                     f"{fn.name}: a boundary face is written with its vertices in the reversed order {order} " +
+                     ("under a test that does not look at the cell incident to the face" if cond else "unconditionally"),
+                     "which side of a border face is outside is decided by its one incident cell; a criterion that ignores the cell "
+                     "(a global reference point, the face alone) flips correctly oriented faces on non-convex domains")
+        else:
+            ctx.ok("C03-Q1", site, f"{fn.name}: {n_read} face write(s) read, none reversed without looking at the incident cell")
 
 
 
